@@ -240,3 +240,113 @@ def import_body(cfg):
     if any(root2 is nd for nd in nodes):
         return {"why": "import returned an original node"}
     return True
+
+
+# ------------------------------------------------------------------------------------- C11
+
+JVALUES = ["", u"é", " ", "\"\\", "\x00\x1f", 0, -1, 2 ** 63, 1.5, -0.0, 1e-7, 1e22, True, False, None, [1, [2, "x"]], {"k": [None]},
+           u"line sep ", u"\x85", "a\nb\tc", u"\U0001f600", [], {}, "trailing ", -(2 ** 70), 1e308]
+
+JOPTIONS = [
+    {}, {"indent": 0}, {"indent": 2}, {"sort_keys": True}, {"ensure_ascii": False}, {"separators": (",", ":")},
+    {"indent": 2, "ensure_ascii": False}, {"indent": 1, "separators": (", ", ": ")}, {"ensure_ascii": False, "sort_keys": True, "indent": 4},
+    {"indent": "\t"},
+]
+JKEYS = ["a", "b", u"ké", "Z"]
+
+
+def jsame(a, b):
+    if type(a) is not type(b):
+        return False
+    if isinstance(a, float):
+        return repr(a) == repr(b)
+    if isinstance(a, list):
+        return len(a) == len(b) and all(jsame(x, y) for x, y in zip(a, b))
+    if isinstance(a, dict):
+        return list(a.keys()) == list(b.keys()) and all(jsame(a[k], b[k]) for k in a)
+    return a == b
+
+
+def jcheck_tree(node, children, attrs, s, cls, depth, maxlevel, parent_obj):
+    if type(node) is not cls:
+        return "node class"
+    if node.parent is not parent_obj:
+        return "wrong parent"
+    pub = dict((k, v) for k, v in node.__dict__.items() if k not in BOOK)
+    if sorted(pub) != sorted(attrs[s]):
+        return "attribute keys differ at node %d: %r vs %r" % (s, sorted(pub), sorted(attrs[s]))
+    for k, v in attrs[s].items():
+        if not jsame(pub[k], v):
+            return "attribute %r of node %d: %r != %r" % (k, s, pub[k], v)
+    exp_kids = children[s] if (maxlevel is None or depth + 1 < maxlevel) else []
+    kids = node.children
+    if len(kids) != len(exp_kids):
+        return "number of children of node %d" % s
+    for kid, c in zip(kids, exp_kids):
+        r = jcheck_tree(kid, children, attrs, c, cls, depth + 1, maxlevel, node)
+        if r:
+            return r
+    return None
+
+
+def json_body(cfg):
+    """C11: JsonExporter text == json.dumps(dict export) under every option set; write() emits the same text;
+    import_/read rebuild an isomorphic tree with equal values AND value types; custom dict exporter/importer honoured."""
+    n = nondet_int(1, cfg["N"], "n")
+    pv = pick_parent_vector(n)
+    parent, children = model_from_pv(pv)
+    s = nondet_int(0, n - 1, "start")
+    vshift = nondet_int(0, len(JVALUES) - 1, "value_rotation")
+    ml = nondet_int(-1, 3, "maxlevel")
+    maxlevel = None if ml < 0 else ml
+    with concrete_region():
+        attrs = []
+        for i in range(n):
+            d = OrderedDict()
+            for j in range(1 + (i + vshift) % 2):
+                d[JKEYS[(i + j + vshift) % len(JKEYS)]] = copy.deepcopy(JVALUES[(vshift + 2 * i + j) % len(JVALUES)])
+            attrs.append(d)
+        nodes = make_nodes("anynode", pv, attrs)
+        if n >= 2:
+            nontrivial()
+        for kw in JOPTIONS:
+            ref_dict = DictExporter(maxlevel=maxlevel).export(nodes[s])
+            ref = json.dumps(ref_dict, **kw)
+            exporter = JsonExporter(maxlevel=maxlevel, **kw)
+            text = exporter.export(nodes[s])
+            if type(text) is not str or text != ref:
+                return {"why": "export() text != json.dumps(dict export)", "kw": repr(kw), "pv": pv, "start": s, "got": text, "exp": ref}
+            fh = io.StringIO()
+            exporter.write(nodes[s], fh)
+            if fh.getvalue() != ref:
+                return {"why": "write() emits different text", "kw": repr(kw), "pv": pv, "got": fh.getvalue(), "exp": ref}
+            if exporter.export(nodes[s]) != ref:
+                return {"why": "second export differs", "kw": repr(kw)}
+            # round trip (import does not depend on the export options)
+            eff_ml = None if maxlevel is None else max(maxlevel, 1)
+            for how in ("import_", "read"):
+                imp = JsonImporter()
+                root = imp.import_(text) if how == "import_" else imp.read(io.StringIO(text))
+                r = jcheck_tree(root, children, attrs, s, AnyNode, 0, eff_ml, None)
+                if r:
+                    return {"why": "%s(export(t)) not isomorphic: %s" % (how, r), "kw": repr(kw), "pv": pv, "start": s, "text": text}
+        # custom dictexporter is used and maxlevel forwarded to it
+        custom = DictExporter(attriter=lambda av: sorted(av, key=lambda kv: kv[0]), childiter=lambda ch: list(reversed(ch)), dictcls=OrderedDict)
+        text = JsonExporter(dictexporter=custom, maxlevel=maxlevel).export(nodes[s])
+        ref = json.dumps(DictExporter(attriter=lambda av: sorted(av, key=lambda kv: kv[0]), childiter=lambda ch: list(reversed(ch)),
+                                      dictcls=OrderedDict, maxlevel=maxlevel).export(nodes[s]))
+        if text != ref:
+            return {"why": "custom dictexporter not honoured / maxlevel not forwarded", "pv": pv, "start": s, "got": text, "exp": ref}
+        # custom dictimporter is used; json.loads kwargs are forwarded
+        full = JsonExporter().export(nodes[s])
+        root = JsonImporter(dictimporter=DictImporter(nodecls=U)).import_(full)
+        r = jcheck_tree(root, children, attrs, s, U, 0, None, None)
+        if r:
+            return {"why": "custom dictimporter: " + r, "pv": pv}
+        root = JsonImporter(parse_int=float).import_(json.dumps({"v": 3}))
+        if type(root.v) is not float:
+            return {"why": "json.loads keyword arguments not forwarded by JsonImporter"}
+        fh = io.StringIO(json.dumps({"v": 3}))
+        if type(JsonImporter(parse_int=float).read(fh).v) is not float:
+            return {"why": "json.load keyword arguments not forwarded by JsonImporter.read"}
+    return True
